@@ -139,6 +139,7 @@ static int run_one(long cfg, const uint8_t *prefix, int plen, int verbose)
   S->loglen = 0;
   S->log[0] = 0;
   S->cfgdesc[0] = 0;
+  S->crashkey[0] = 0;
   S->child_exit_called = 0;
 
   pid_t pid = fork();
@@ -223,7 +224,7 @@ static void account(long cfg)
     memset(&v, 0, sizeof v);
     snprintf(v.prop, sizeof v.prop, "%s", H->prop);
     snprintf(v.clause, sizeof v.clause, "crash");
-    snprintf(v.key, sizeof v.key, "%s|clause=crash", S->cfgdesc);
+    snprintf(v.key, sizeof v.key, "%s|clause=crash", S->crashkey[0] ? S->crashkey : S->cfgdesc);
     snprintf(v.msg, sizeof v.msg, "%s", S->outcome_msg);
     record_violation(cfg, &v);
   }
@@ -325,6 +326,86 @@ static void explore_config(long cfg)
   if (capped) st_capped_configs++;
 }
 
+/* ------------------------------------------------------------ BFS over operation histories */
+
+static long st_bfs_states, st_bfs_max_depth;
+
+static void explore_bfs(long cfg)
+{
+  int nops = H->bfs_nops, depth = H->bfs_depth[hx_tier];
+  struct seq { int len; uint8_t ops[16]; };
+  struct seq *frontier = malloc(sizeof *frontier), *next = NULL;
+  long nf = 1, nn = 0, capn = 0;
+  frontier[0].len = 0;
+  /* visited set local to this configuration */
+  size_t vcap = 1 << 16, vcount = 0;
+  uint64_t *visited = calloc(vcap, sizeof *visited);
+  int capped = 0;
+  for (int d = 1; d <= depth && nf > 0 && !capped; d++) {
+    nn = 0;
+    for (long i = 0; i < nf && !capped; i++) {
+      for (int op = 0; op < nops; op++) {
+        if (t_deadline > 0 && nowsec() > t_deadline) { capped = 1; break; }
+        uint8_t pre[16];
+        memcpy(pre, frontier[i].ops, (size_t) frontier[i].len);
+        pre[frontier[i].len] = (uint8_t) op;
+        S->state_digest = 0;
+        S->state_terminal = 0;
+        run_one(cfg, pre, frontier[i].len + 1, 0);
+        account(cfg);
+        if (nsamples < 3 && hx_worker_id == 0 && d == depth && op == 5 && S->outcome != OUT_INFRA) {
+          uint64_t dg = S->state_digest;
+          int term = S->state_terminal;
+          run_one(cfg, pre, frontier[i].len + 1, 1);
+          struct sample *sm = &samples[nsamples++];
+          sm->cfg = cfg;
+          snprintf(sm->desc, sizeof sm->desc, "%s", S->cfgdesc);
+          sm->nchoices = S->ntrace;
+          for (int k = 0; k < S->ntrace; k++) sm->choices[k] = S->trace[k].chosen;
+          sm->log = strdup(S->log);
+          sm->outcome = S->outcome;
+          S->state_digest = dg;
+          S->state_terminal = term;
+        }
+        if (S->outcome != OUT_DONE || S->state_terminal || S->nviol) continue;
+        uint64_t dg = S->state_digest ? S->state_digest : 1;
+        size_t slot = (size_t) (dg * 0x9E3779B97F4A7C15ull >> 40) % vcap;
+        int seen = 0;
+        while (visited[slot]) { if (visited[slot] == dg) { seen = 1; break; } slot = (slot + 1) % vcap; }
+        if (seen) continue;
+        visited[slot] = dg;
+        vcount++;
+        st_bfs_states++;
+        if (d > st_bfs_max_depth) st_bfs_max_depth = d;
+        if (vcount * 2 > vcap) {
+          /* grow */
+          size_t ncap = vcap * 4;
+          uint64_t *nv = calloc(ncap, sizeof *nv);
+          for (size_t k = 0; k < vcap; k++) if (visited[k]) { size_t sl = (size_t) (visited[k] * 0x9E3779B97F4A7C15ull >> 40) % ncap; while (nv[sl]) sl = (sl + 1) % ncap; nv[sl] = visited[k]; }
+          free(visited);
+          visited = nv;
+          vcap = ncap;
+        }
+        if (d < depth) {
+          if (nn >= capn) { capn = capn ? capn * 2 : 1024; next = realloc(next, (size_t) capn * sizeof *next); }
+          next[nn].len = frontier[i].len + 1;
+          memcpy(next[nn].ops, pre, (size_t) next[nn].len);
+          nn++;
+        }
+      }
+    }
+    free(frontier);
+    frontier = next;
+    nf = nn;
+    next = NULL;
+    capn = 0;
+  }
+  free(frontier);
+  free(visited);
+  st_configs_done++;
+  if (capped) st_capped_configs++;
+}
+
 /* ------------------------------------------------------------ JSON */
 
 static void jstr(FILE *f, const char *s)
@@ -355,9 +436,9 @@ static void write_stats(const char *path, long ncfg, long first, long step, doub
           H->prop, H->name, hx_tier ? "thorough" : "quick", hx_worker_id, ncfg, first, step);
   fprintf(f, "\"configs_done\":%ld,\"capped_configs\":%ld,\"executions\":%ld,\"choice_points\":%ld,\"max_trace\":%d,"
              "\"distinct_observations\":%ld,\"infra_errors\":%ld,\"crashes\":%ld,\"replay_checked\":%ld,\"replay_mismatch\":%ld,"
-             "\"trace_overflow\":%ld,\"viol_overflow\":%ld,\"wall_s\":%.3f,\"deadline_hit\":%s,",
+             "\"trace_overflow\":%ld,\"viol_overflow\":%ld,\"wall_s\":%.3f,\"bfs_states\":%ld,\"bfs_max_depth\":%ld,\"deadline_hit\":%s,",
           st_configs_done, st_capped_configs, st_exec, st_points, st_max_trace, obs_distinct, st_infra, st_crash,
-          st_replay_checked, st_replay_mismatch, st_trace_overflow, viol_overflow, wall,
+          st_replay_checked, st_replay_mismatch, st_trace_overflow, viol_overflow, wall, st_bfs_states, st_bfs_max_depth,
           (t_deadline > 0 && nowsec() > t_deadline) ? "true" : "false");
   fprintf(f, "\"outcomes\":{\"done\":%ld,\"hang\":%ld,\"infra\":%ld,\"crash\":%ld},", st_outcome[OUT_DONE], st_outcome[OUT_HANG],
           st_outcome[OUT_INFRA], st_outcome[OUT_CRASH]);
@@ -490,7 +571,7 @@ int main(int argc, char **argv)
       /* scatter configurations over the shards so that heavy neighbours do not pile up on one worker */
       if ((long) ((((uint64_t) c * 0x9E3779B97F4A7C15ull) >> 33) % (uint64_t) nshards) != shard) continue;
       if (t_deadline > 0 && nowsec() > t_deadline) break;
-      explore_config(c);
+      if (H->bfs_nops) explore_bfs(c); else explore_config(c);
     }
     /* confirm each violation by replaying its choice sequence */
     for (int i = 0; i < nviols; i++) {
